@@ -19,7 +19,7 @@ func init() { register("C12", checkC12Defaults) }
 // land in another file: the created set is compared with the location function, and
 // a second process must replay everything as passed.
 func checkC12Defaults(c *vkit.Ctx) {
-	c.P.Rule = "engine-B part: sequences of package-level entry points (all five, random order, 2-8 calls per test, 1-3 tests) interleaved with zero-option WithConfig() calls in a real test process; created files must equal the location function's set and a second process must pass every call"
+	c.P.Rule = "engine-B part: sequences of package-level entry points (all five, random order, 2-8 calls per test, 1-3 tests) interleaved with zero-option WithConfig() calls in a real test process; created files must equal the location function's set and a second process must pass every call; second part: 2-5 calls with the same relative (or default) Dir through separate Configs, one caller a subtest body defined in a non-test file of the sub-package (another directory), run in two orders from a clean slate in fresh processes: equal sets of created files, then a CI process replays them all and creates nothing"
 	p, done := workerProgram(c, "")
 	defer done()
 	if p == nil {
